@@ -244,15 +244,43 @@ theorem C16_function_first_arm (self : List S → Except Err S) (f : FDef) (args
     simp only [List.cons_append, stepArms, hpre (q, b) (List.mem_cons_self ..)]
     exact ih (fun x hx => hpre x (List.mem_cons_of_mem _ hx))
 
-/-- … and that arm runs in the bindings of its pattern: a tail call hands over its evaluated
-    arguments, any other body is evaluated. -/
+/-- … and that arm runs in the bindings of its pattern, behind which the declared inputs stand for
+    the arguments of the current call: a tail call hands over its evaluated arguments, any other
+    body is evaluated. -/
 theorem C16_function_arm_runs (self : List S → Except Err S) (f : FDef) (args : List S)
     (p : P) (body : E) (env : Env) (hm : matchArgs p args [] = some env) :
-    (tailShape f body = none → ∀ r, evalScalar self env body = .ok r → stepArms self f args [(p, body)] = .ok (.ret r)) ∧
-    (∀ es xs, tailShape f body = some es → evalArgs self env es = .ok xs → stepArms self f args [(p, body)] = .ok (.tail xs)) := by
+    (tailShape f body = none → ∀ r, evalScalar self (env ++ inputsEnv f args) body = .ok r → stepArms self f args [(p, body)] = .ok (.ret r)) ∧
+    (∀ es xs, tailShape f body = some es → evalArgs self (env ++ inputsEnv f args) es = .ok xs → stepArms self f args [(p, body)] = .ok (.tail xs)) := by
   constructor
   · intro ht r hr; simp [stepArms, hm, ht, hr]
   · intro es xs ht hx; simp [stepArms, hm, ht, hx]
+
+/-- The declared inputs are rebound in every iteration of the tail-call loop: after a tail call
+    the loop continues with the new arguments, and the bodies of that iteration read the inputs as
+    those arguments (`inputsEnv f args'`), not as the arguments of the original call. -/
+theorem C16_tail_iteration_rebinds_inputs (self : List S → Except Err S) (f : FDef) (it : Nat) (args args' : List S)
+    (h : stepArms self f args f.arms = .ok (.tail args')) :
+    loopArms self f (it + 1) args = loopArms self f it args' ∧
+    (∀ x v, (f.inputs.zip args').find? (fun p => p.1 == x) = some (x, v) → (inputsEnv f args').get x = some (.sc v)) := by
+  constructor
+  · simp only [loopArms, h]
+  · intro x v hx
+    unfold inputsEnv Env.get
+    generalize f.inputs.zip args' = l at hx
+    induction l with
+    | nil => cases hx
+    | cons p rest ih =>
+      rw [List.find?_cons] at hx
+      rw [List.map_cons, List.find?_cons]
+      cases hp : (p.1 == x) with
+      | true =>
+        rw [hp] at hx
+        simp only [Option.some.injEq] at hx
+        rw [hx]; rfl
+      | false =>
+        rw [hp] at hx
+        simp only [hp]
+        exact ih hx
 
 /-- Recursion, including tail recursion of any depth: the interpreter's arm loop with its
     tail-call iteration returns exactly the values plain recursion (every call, tail or
@@ -309,7 +337,7 @@ def fact : Nat → Nat
 /-- `f(n) ├ 0 => 1 └ n => n * f(n - 1)` -/
 def factDef : FDef :=
   ⟨1, [(.sp (.lit (u 0)), .lit (u 1)),
-       (.sp (.bind 0), .bin .mul (.var 0) (.call1 (.bin .sub (.var 0) (.lit (u 1)))))]⟩
+       (.sp (.bind 0), .bin .mul (.var 0) (.call1 (.bin .sub (.var 0) (.lit (u 1)))))], []⟩
 
 theorem fact_pos (n : Nat) : 0 < fact n := by
   induction n with
@@ -322,7 +350,7 @@ theorem fact_mono (n : Nat) : fact n ≤ fact (n + 1) := by
   exact Nat.le_mul_of_pos_left _ (by omega)
 
 theorem callRec_succ (f : FDef) (k : Nat) (args : List S) (h : args.length = f.arity) :
-    callRec f (k + 1) args = runArmsRec (callRec f k) args f.arms := by
+    callRec f (k + 1) args = runArmsRec f (callRec f k) args f.arms := by
   simp [callRec, h]
 
 theorem env_get_hd (x : Nat) (v : V) (rest : Env) : Env.get ((x, v) :: rest) x = some v := by
@@ -332,12 +360,12 @@ theorem env_get_hd (x : Nat) (v : V) (rest : Env) : Env.get ((x, v) :: rest) x =
     recursive call -/
 theorem fact_step (self : List S → Except Err S) (m r : Nat) (hself : self [u m] = .ok (u r))
     (hr : ((m + 1) * r : Nat) ≤ U64MAX) (hm : ((m + 1 : Nat) : Int) ≤ U64MAX) :
-    runArmsRec self [u (m + 1)] factDef.arms = .ok (u ((m + 1) * r)) := by
+    runArmsRec factDef self [u (m + 1)] factDef.arms = .ok (u ((m + 1) * r)) := by
   have hm0 : matchArgs (.sp (.lit (u 0))) [u (m + 1)] [] = none := by
     simp [matchArgs, matchP, matchSP, valuesMatch, u]; omega
   have hm1 : matchArgs (.sp (.bind 0)) [u (m + 1)] [] = some [(0, .sc (u (m + 1)))] := by
     simp [matchArgs, matchP, Env.get]
-  simp only [factDef, runArmsRec, hm0, hm1]
+  simp only [factDef, runArmsRec, hm0, hm1, inputsEnv, List.zip_nil_left, List.map_nil, List.append_nil]
   apply evalScalar_ok.2
   have hv : evalE self [(0, V.sc (u (m + 1)))] (.var 0) = .ok (.sc (u (m + 1))) := by
     simp [evalE, Env.get]
@@ -379,7 +407,7 @@ theorem C16_factorial (n : Nat) (h : (fact n : Int) ≤ U64MAX) :
 /-- `cd(n, acc) ├ (0, acc) => acc └ (n, acc) => cd(n - 1, acc + 2)` — a tail call -/
 def cdDef : FDef :=
   ⟨2, [(.tup [.lit (u 0), .bind 2], .var 2),
-       (.tup [.bind 1, .bind 2], .call2 (.bin .sub (.var 1) (.lit (u 1))) (.bin .add (.var 2) (.lit (u 2))))]⟩
+       (.tup [.bind 1, .bind 2], .call2 (.bin .sub (.var 1) (.lit (u 1))) (.bin .add (.var 2) (.lit (u 2))))], []⟩
 
 theorem valuesMatch_u (a b : Nat) : valuesMatch (u a) (u b) = decide (a = b) := by
   by_cases h : a = b
